@@ -59,6 +59,15 @@ type baseState struct {
 	retentionFloor *pruner.RetentionFloor
 }
 
+// resetFilterOnError forgets the in-memory running event filter when the write that carried
+// its update failed: the filter is updated inside the batch closure, before the commit.
+func (b *baseState) resetFilterOnError(err error) error {
+	if err != nil && b.runningFilter != nil {
+		b.runningFilter.Reset()
+	}
+	return err
+}
+
 func New(
 	database db.KeyValueStore,
 	runningFilter *core.RunningEventFilter,
